@@ -47,6 +47,18 @@ def runner_bodies(facts):
             effects._FACTS_FOR_VERDICTS[id(nb)] = facts
             out[i] = nb
             absorbed.update(inl)
+    # ... and helpers that act on the verdict (`fn settle(ret: BlockRet) -> NextStep { match ret { .. stream.wait(need) .. } }`): the
+    # rules ask what the runner does with each answer of work(), which is then one question on one body
+    def takes_verdict(hb):
+        return hb.kind != "closure" and any("block::BlockRet" in hb.locals[j]["ty"] for j in range(1, min(hb.argc, len(hb.locals) - 1) + 1))
+    for i, b in enumerate(list(out)):
+        if not _has_work_call(b):
+            continue
+        nb, inl = inline.inline_body(facts, b, takes_verdict)
+        if inl:
+            effects._FACTS_FOR_VERDICTS[id(nb)] = facts
+            out[i] = nb
+            absorbed.update(inl)
     cg = CallGraph(facts)
     reach = cg.reachable_bodies([b.q for b in out]) - absorbed
     have = {b.path for b in out}
